@@ -92,7 +92,28 @@ func (c *Config) VerifyMulti(tr *Transcript, proof *MultiProof, Cs []Point, ys [
 		g2 = AddR(g2, MulR(coef, ys[i]))
 		rp = MulR(rp, r)
 	}
-	E := MSM(Cs, ks)
+	var E Point
+	if n > 512 {
+		// large statements open few distinct commitments many times: sum the coefficients per distinct point object
+		// first (distributivity), then one scalar multiplication per distinct point
+		idx := map[string]int{}
+		var pts []Point
+		var sums []*big.Int
+		for i := 0; i < n; i++ {
+			key := Cs[i].X.Text(62) + ":" + Cs[i].Y.Text(62) + ":" + Cs[i].Z.Text(62)
+			j, ok := idx[key]
+			if !ok {
+				j = len(pts)
+				idx[key] = j
+				pts = append(pts, Cs[i])
+				sums = append(sums, new(big.Int))
+			}
+			sums[j] = AddR(sums[j], ks[i])
+		}
+		E = MSM(pts, sums)
+	} else {
+		E = MSM(Cs, ks)
+	}
 	tr.AppendPoint(E, []byte("E"))
 	return c.VerifyIPA(tr, Sub(E, proof.D), proof.IPA, t, g2, naive)
 }
